@@ -61,7 +61,7 @@ Lemma sw_unit_variant_rel v st sv st' : sw_unit_variant_of uc v st = Ok (sv, st'
 Proof.
   unfold sw_unit_variant_of. intros H Hu. apply mbind_ok in H as (name & s1 & _ & H). unfold ret in H. injection H as <- _.
   destruct v; try discriminate. repeat split. cbn [sw_obs_variant vd_wire swv_raw swv_name variant_shared].
-  destruct (str_eqb (renamed (vid sh)) name) eqn:E; [|reflexivity]. apply str_eqb_eq in E. now subst.
+  match goal with |- context [str_eqb ?r ?n] => destruct (str_eqb r n) eqn:E end; [|reflexivity]. apply str_eqb_eq in E. now symmetry.
 Qed.
 
 Lemma sw_variant_rel sh v st sv st' : sw_variant_of uc cfg sh v st = Ok (sv, st') -> vrel Swift v (sw_obs_variant sv).
